@@ -43,6 +43,7 @@ class World(SessionWorld):
         SessionWorld.__init__(self, run)
         self.mode = mode
         self.reqs = {}  # id -> Req
+        self.kept_call_options = {}  # option kind -> (CallOptions object the application keeps, holder naming the call it is used for now)
         self.order = []
         self.subs = []  # live Subscription objects (model side: (sub, sub_id, token))
         self.regs = []
@@ -265,18 +266,32 @@ class World(SessionWorld):
                 opt = ch.pick(("none", "details", "progress", "timeout", "progress+details"), "callopt", (4, 2, 2, 1, 1))
                 wire = {}
                 o = None
-                if opt != "none":
+                kept = self.kept_call_options.get(opt)
+                if opt != "none" and kept is not None and kept[1].r.state != "pending" and ch.flag("same-options-object-again", 0.5):
+                    # the application keeps one CallOptions object and passes it to call after call (the earlier call
+                    # that used it is over - with a result or with an error)
+                    o, holder = kept
+                    holder.r = r
+                    if "progress" in opt:
+                        wire["receive_progress"] = True
+                    if opt == "timeout":
+                        wire["timeout"] = 12
+                    self.run.probe("options-object-used-again")
+                elif opt != "none":
                     kw = {}
+                    holder = Req()
+                    holder.r = r
                     if "details" in opt:
                         kw["details"] = True
                     if "progress" in opt:
-                        kw["on_progress"] = self.make_progress(r)
+                        kw["on_progress"] = self.make_progress(holder)
                         wire["receive_progress"] = True
                         r.reentrant = ch.flag("call-inside-progress-handler", 0.3)
                     if opt == "timeout":
                         kw["timeout"] = 12
                         wire["timeout"] = 12
                     o = types.CallOptions(**kw)
+                    self.kept_call_options[opt] = (o, holder)
                 r.opts = {"opt": opt}
                 if o is not None:
                     fut = S.call(r.uri, *args, options=o, **kwargs)
@@ -444,9 +459,10 @@ class World(SessionWorld):
             return [jsonish(list(args))]
         return []
 
-    def make_progress(self, r):
+    def make_progress(self, holder):
         def on_progress(*a, **k):
             from autobahn.wamp import types
+            r = holder.r if hasattr(holder, "r") else holder
             if len(a) == 1 and not k and isinstance(a[0], types.CallResult):
                 # options.details: the progress arrives wrapped in a CallResult
                 r.progress_got.append(("callresult", tuple(jsonish(list(a[0].results))), jsonish(a[0].kwresults)))
